@@ -82,7 +82,14 @@ def _load(name):
         with open(path) as f:
             doc = json.load(f)
         _CACHE[name] = (TimeOfUseTariff(name), oracles.TariffOracle(doc))
-    return _CACHE[name]
+    tar, orc = _CACHE[name]
+    # every other request gets a newly constructed tariff object for the same file (the n-th object built in this
+    # process must behave like the first), the others share the first one (state left by earlier lookups must not matter)
+    _CACHE["n:" + name] = _CACHE.get("n:" + name, 0) + 1
+    if _CACHE["n:" + name] % 2 == 0:
+        from acnportal.signals.tariffs.tou_tariff import TimeOfUseTariff
+        return TimeOfUseTariff(name), orc
+    return tar, orc
 
 
 def _judge(obs, tar, orc, dt, name, want_demand=True):
